@@ -157,8 +157,22 @@ func execC19(ctx *Ctx, in *Input) *Result {
 		path := filepath.Join(ctx.Scratch, fmt.Sprintf("c19-%d-%d.out", os.Getpid(), in.Index))
 		// a long old file: a successful run must replace it completely, not just overwrite its head
 		old := sentinel
-		if in.Index%2 == 0 {
+		var fresh *enga.Obs
+		pre := (in.Index/len(c19Kinds) + in.Index) % 4 // independent of the failure kind (index mod 12) and the variant
+		switch pre {
+		case 0:
 			old = strings.Repeat(sentinel, 4000)
+		case 2, 3:
+			// the output of an earlier generation of the same grammar: (2) made when the epilogue still had more code at
+			// its end (the new output is a proper prefix of the old file), (3) identical to what this run will write
+			fresh = enga.Run(enga.Case{Text: text, Variant: in.Variant, Sched: sc, Mode: "gen"})
+			if fresh.Outcome == enga.OutOK && len(fresh.Output) > 0 {
+				old = string(fresh.Output)
+				if pre == 2 {
+					old += "\n// SENTINEL: code that was at the end of the epilogue when this file was generated\nfunc oldMain() {}\n"
+				}
+				res.Count("preexisting_file_is_earlier_output", 1)
+			}
 		}
 		if err := os.WriteFile(path, []byte(old), 0o644); err != nil {
 			res.Harness = err.Error()
@@ -187,7 +201,9 @@ func execC19(ctx *Ctx, in *Input) *Result {
 				res.Count("fault_not_fired_"+kind, 1)
 			}
 			// complete file: equals what the same case writes to a fresh path, and ends with the epilogue
-			fresh := enga.Run(enga.Case{Text: text, Variant: in.Variant, Sched: sc, Mode: "gen"})
+			if fresh == nil {
+				fresh = enga.Run(enga.Case{Text: text, Variant: in.Variant, Sched: sc, Mode: "gen"})
+			}
 			if rerr != nil || !bytes.Equal(after, fresh.Output) {
 				return fail("success-file-differs", "the file written over an existing file differs from the file written to a fresh path (%d vs %d bytes)", len(after), len(fresh.Output))
 			}
@@ -195,7 +211,7 @@ func execC19(ctx *Ctx, in *Input) *Result {
 			if !strings.HasSuffix(strings.TrimRight(string(after), " \t\n"), strings.TrimRight(epi, " \t\n")) {
 				return fail("success-epilogue-missing", "the output file does not end with the user's epilogue")
 			}
-			if bytes.Contains(after, []byte("SENTINEL")) {
+			if bytes.Contains(after, []byte("SENTINEL")) && !strings.Contains(text, "SENTINEL") {
 				return fail("success-not-truncated", "the output file still holds old content")
 			}
 			continue
